@@ -5,10 +5,10 @@ Import ListNotations.
 Local Open Scope N_scope.
 
 Lemma no_empty_bucket own ops :
-  own < M -> Forall op_valid ops ->
+  own < M -> Forall op_valid ops -> Forall op_nofail ops ->
   (length (run own ops) <= 1)%nat \/ Forall (fun b => bpeers b <> []) (run own ops).
 Proof.
-  intros Ho V. pose proof (run_joined own ops Ho V) as J. unfold joined in J. apply join_step_none in J.
+  intros Ho V NF. pose proof (run_joined own ops Ho V NF) as J. unfold joined in J. apply join_step_none in J.
   destruct J as [L | F]; [left; exact L | right].
   eapply Forall_impl; [| exact F]. intros b Nb E. unfold nonempty, is_empty in Nb. rewrite E in Nb. discriminate.
 Qed.
@@ -21,7 +21,7 @@ Lemma single_probe own ops p e :
   end.
 Proof.
   intros Ho V Hp. cbn [step].
-  pose proof (add_peer_more own e FUEL _ p (run_wf own ops Ho V) Ho Hp FUEL_ge (run_joined own ops Ho V)) as H.
+  pose proof (add_peer_more own e FUEL _ p (run_wf own ops Ho V) Ho Hp FUEL_ge) as H.
   destruct (add_peer true own e FUEL (run own ops) p) as [[r pr] t']. cbn. tauto.
 Qed.
 
@@ -34,8 +34,31 @@ Lemma rejected_unchanged own ops p e probed :
   (forall x, In x (contacts (run own ops)) -> pkey x <> pkey p -> In x (contacts t')).
 Proof.
   intros Ho V Hp. cbn [step].
-  pose proof (add_peer_more own e FUEL _ p (run_wf own ops Ho V) Ho Hp FUEL_ge (run_joined own ops Ho V)) as H.
+  pose proof (add_peer_more own e FUEL _ p (run_wf own ops Ho V) Ho Hp FUEL_ge) as H.
   destruct (add_peer true own e FUEL (run own ops) p) as [[r pr] t']. cbn. intros E. inversion E; subst.
-  destruct H as (_ & _ & H). destruct (H eq_refl) as (H1 & H2 & H3).
+  destruct H as (_ & _ & H). destruct (H (or_introl eq_refl)) as (H1 & H2 & H3 & _).
   split; [| split; assumption]. intros x Hx Ex. apply H1. rewrite <- Ex. apply in_map. exact Hx.
+Qed.
+
+(* the probe could not even be sent (local failure): the exception leaves add_peer, the newcomer is not inserted,
+   nothing new appears and every contact at another address keeps its place -- nobody is displaced *)
+Lemma local_failure_displaces_nobody own ops p e probed :
+  own < M -> Forall op_valid ops -> pid p < M ->
+  snd (step true own (run own ops) (Add p e)) = OAdd ErrProbe probed ->
+  let t' := fst (step true own (run own ops) (Add p e)) in
+  (exists q, probed = [q] /\ probe e q = PLocalFail /\ In q (contacts t')) /\
+  (forall x, In x (contacts t') -> pid x <> pid p) /\
+  (forall x, In x (contacts t') -> In x (contacts (run own ops))) /\
+  (forall x, In x (contacts (run own ops)) -> pkey x <> pkey p -> In x (contacts t')).
+Proof.
+  intros Ho V Hp. cbn [step].
+  pose proof (add_peer_more own e FUEL _ p (run_wf own ops Ho V) Ho Hp FUEL_ge) as H.
+  pose proof (add_peer_facts own e FUEL _ p (run_wf own ops Ho V) Ho Hp FUEL_ge) as Facts.
+  destruct (add_peer true own e FUEL (run own ops) p) as [[r pr] t']. cbn. intros E. inversion E; subst.
+  destruct H as (L & _ & H). destruct (H (or_intror eq_refl)) as (H1 & H2 & H3 & H4).
+  destruct Facts as (_ & [(v & Ev) | (_ & q & Hq & Pq)] & _); [discriminate Ev |].
+  split.
+  - exists q. destruct probed as [| a [| b l]]; cbn in L, Hq; try tauto; try lia.
+    destruct Hq as [-> | []]. split; [reflexivity |]. split; [exact Pq |]. apply H4. left. reflexivity.
+  - split; [| split; assumption]. intros x Hx Ex. apply H1. rewrite <- Ex. apply in_map. exact Hx.
 Qed.
